@@ -192,7 +192,7 @@ def value_oracle(meta, impl):
             continue
         # the one line that starts with this keyword (skip when repeated or inside a block)
         cand = [l for l in lines if l.strip(b" \t").lower().split()[:1] == [key.lower()]]
-        if len(cand) != 1 or b"{" in conf or b"}" in conf:
+        if len(cand) != 1 or b"{" in conf or b"}" in conf or b"#" in conf or b"\r" in conf:
             continue
         text = cand[0].strip(b" \t")[len(key):]
         if kind == "R":
@@ -528,6 +528,22 @@ def layout_rewrite(r, conf):
     return s, sorted(what)
 
 
+def crash_site(exe, d, scn_text, stderr, env):
+    """name of the function in which the process died: from the sanitizer report, else from gdb"""
+    m = re.search(r"#0 0x[0-9a-f]+ in ([^\s(]+)", stderr or "")
+    if m:
+        return m.group(1)
+    m = re.search(r"runtime error: ([^\n]*)", stderr or "")
+    if m:
+        return "ubsan:" + re.sub(r"[^A-Za-z0-9_:]+", "-", m.group(1))[:60]
+    p = os.path.join(d, "gdb.scn")
+    open(p, "w").write(scn_text)
+    rc, o, e = V.sh(["gdb", "-batch", "-ex", "run", "-ex", "bt 3", "--args", exe, "scn", p], cwd=d, timeout=120, env=env)
+    os.remove(p)
+    m = re.search(r"#0\s+(?:0x[0-9a-f]+ in )?([^\s(]+)", o or "")
+    return m.group(1) if m else "unknown-site"
+
+
 def setup():
     V.extract_model("C09", EXTRACT, DRIVER, [])
     V.build_prog("c09unit", UNIT["c09unit"])
@@ -617,12 +633,12 @@ def check(run):
         if bad:
             run.violation(bad[0], bad[1], {"kind": "unit", "case": c, "impl": io, "model": mo})
         if io != mo:
-            comp = "unit:" + kind
+            comp = "unit:" + ("key_lookup" if kind == "KL" else kind)
             if kind in ("PF", "PC"):
                 # is it the pinned (lenient) value rule?  then the repaired defect is back: name it
                 rcl, ml, _ = V.run_lines(model, [c.replace(kind + " 1 ", kind + " 0 ", 1)])
                 if ml and ml[0] == io:
-                    comp = "unit:values:pinned-lenient-rule"
+                    comp = "unit:strict:pinned-lenient-rule"
             run.mismatch(comp, c, io, mo)
         if nsample < 4 and nontriv and kind in ("KL", "PF"):
             nsample += 1
@@ -638,16 +654,16 @@ def check(run):
         if not io.startswith(want):
             run.violation(sig, text + " [witness of C09_pinned_scalar_rule_refuted / C09_pinned_vector_rules_refuted]", {"kind": "unit", "case": c, "impl": io, "model": mo})
         if io != mo:
-            run.mismatch("unit:values:pinned-lenient-rule", c, io, mo)
+            run.mismatch("unit:strict:pinned-lenient-rule", c, io, mo)
     il = [c for c, _, _ in ISOLATION_WITNESSES]
     _, ii, _ = V.run_lines(unit, il)
     _, im, _ = V.run_lines(model, il)
     for (c, expected, text), io, mo in zip(ISOLATION_WITNESSES, ii, im):
         run.count(c, True)
         if not io.startswith(expected):
-            run.violation("key_lookup:end-of-string-isolation", text + " [witness of C09_right_isolation_refuted]", {"kind": "unit", "case": c, "impl": io, "model": mo})
+            run.violation("key_lookup:end-of-string-isolation", text + " [witness of C09_pinned_right_isolation_refuted]", {"kind": "unit", "case": c, "impl": io, "model": mo})
         if io != mo:
-            run.mismatch("unit:KL", c, io, mo)
+            run.mismatch("unit:key_lookup", c, io, mo)
     run.cov["correspondence"]["unit_cases"] = len(lines)
     run.cov["correspondence"]["corpus_cases"] = ncorpus
 
@@ -748,25 +764,42 @@ def check(run):
             exe = unit
     npos = ["pos %d %s %s %s" % (i + 1, V.hexf(x), V.hexf(y), V.hexf(z)) for i, (x, y, z) in enumerate(xyz)] if xyz else []
     batch = 10
+    head = ["natoms %d" % max(len(xyz), 4), "totalforces 1"] + npos
+    nreported = 0
     for b0 in range(0, len(fz), batch):
-        L = ["natoms %d" % max(len(xyz), 4), "totalforces 1"] + npos
-        for c in fz[b0:b0 + batch]:
+        chunk = fz[b0:b0 + batch]
+        L = list(head)
+        for c in chunk:
             L += ["new", "confighex %s" % G.hx(c)]
         rc, o, e = run_scn(exe, d, "fz", "\n".join(L) + "\n", timeout=120, env=env)
         nconf = o.count("CONFIG ")
-        for c in fz[b0:b0 + batch]:
+        for c in chunk:
             run.count("fz:" + G.hx(c)[:40], False)
-        run.dist("explore:bytes", len(fz[b0:b0 + batch]))
-        if rc != 0 or nconf != len(fz[b0:b0 + batch]):
-            k = min(nconf, len(fz[b0:b0 + batch]) - 1)
-            culprit = fz[b0 + k]
-            run.violation("crash:module", "read_config_string %s on a byte-mutated configuration (rc=%d): %s" % (
-                "timed out (hang)" if rc == 124 else "crashed", rc, (e or "")[-400:].replace("\n", " | ")),
-                {"kind": "bytes", "confighex": G.hx(culprit), "config": culprit.decode("latin1")})
-            break
+        run.dist("explore:bytes", len(chunk))
         if "CONFIG err=exception" in o:
             k = [l.startswith("CONFIG err=exception") for l in o.split("\n") if l.startswith("CONFIG")].index(True)
-            run.violation("crash:exception", "an exception escaped read_config_string", {"kind": "bytes", "confighex": G.hx(fz[b0 + k])})
+            run.violation("crash:exception", "an exception escaped read_config_string", {"kind": "bytes", "confighex": G.hx(chunk[k]),
+                          "config": chunk[k].decode("latin1")})
+        if rc != 0 or nconf != len(chunk):
+            # isolate: each configuration of the chunk alone, in its own process
+            found = False
+            for c in chunk[max(0, nconf - 1):]:
+                one = "\n".join(head + ["new", "confighex %s" % G.hx(c)]) + "\n"
+                rc1, o1, e1 = run_scn(exe, d, "fz1", one, timeout=60, env=env)
+                if rc1 != 0 or "CONFIG " not in o1:
+                    found = True
+                    site = crash_site(exe, d, one, e1, env)
+                    run.violation("crash:" + site, "read_config_string %s on a byte-mutated configuration (rc=%d) in %s" % (
+                        "timed out (hang)" if rc1 == 124 else "crashed", rc1, site),
+                        {"kind": "bytes", "confighex": G.hx(c), "config": c.decode("latin1"), "scenario": one, "stderr": (e1 or "")[-1500:]})
+                    break
+            if not found:
+                run.violation("crash:sequence", "a sequence of configurations read into fresh modules %s (rc=%d); no single one does" % (
+                    "timed out" if rc == 124 else "crashed", rc), {"kind": "bytes", "confighex": G.hx(chunk[min(nconf, len(chunk) - 1)]),
+                    "scenario": "\n".join(L) + "\n", "stderr": (e or "")[-1500:]})
+            nreported += 1
+            if nreported >= 5:
+                break
     run.cov["correspondence"]["explored_byte_strings"] = len(fz)
 
 
@@ -786,5 +819,7 @@ def replay(path):
         print(run_scn(unit, d, "replay", scenario(rp["natoms"], rp["positions"], rp["config"].encode("latin1")))[1])
     elif rp.get("kind") == "bytes":
         d = V.scratch("C09r")
-        print(run_scn(unit, d, "replay", "natoms 4\nnew\nquiet 0\nconfighex %s\n" % rp["confighex"]))
+        for f in glob.glob(os.path.join(V.REPO, "tests", "input_files", "*.*")):
+            shutil.copy(f, d)
+        print(run_scn(unit, d, "replay", rp.get("scenario") or "natoms 4\nnew\nquiet 0\nconfighex %s\n" % rp["confighex"]))
     return 0
